@@ -765,8 +765,20 @@ class Engine:
         # join sees all its arrivals of the current round and merges them. A loop without an invariant is unrolled round
         # by round (back edges re-queue the header); that terminates only when the loop bound is concrete in every state.
         budget = 40 * len(rpo) + 20000
+        bodies = {}
         while pending:
-            bi = min(pending.keys(), key=lambda k: pos[k])
+            cands = sorted(pending.keys(), key=lambda k: pos[k])
+            bi = cands[0]
+            for c in cands:
+                # a loop header waits until the states still inside its body have reached the back edge (or left)
+                if c in headers and c not in loopinfo:
+                    body = bodies.get(c)
+                    if body is None:
+                        body = bodies[c] = f.loop_body(c)
+                    if any(o != c and o in body for o in cands):
+                        continue
+                bi = c
+                break
             ins = pending.pop(bi, None)
             budget -= 1
             if budget < 0:
